@@ -19,10 +19,19 @@ func crlAuthentic(crl *x509.RevocationList, issuer *x509.Certificate) bool {
 	return vp.And(crl.Issuer.SerialNumber == issuer.Subject.SerialNumber, vp.UFBool("CrlSigBy", vp.GhostGet(crl, "id").(uint64), keyID(issuer)))
 }
 
-func h05(nDist, nRev int) {
+func h05(nDist, nRev int) { h05u(nDist, nRev, false) }
+
+// used: the options value has verified the quote before, with collateral and without revocation
+// checking (whatever the verdict was); nothing left in it may stand in for the CRL checks.
+func h05u(nDist, nRev int, used bool) {
 	w := mkCollateralWorld(0, 1, 0, 1, nDist, nRev)
 	quote := mkQuote(w.pki, 0)
 	opts := &Options{GetCollateral: true, CheckRevocations: true, Getter: w.getter, Now: symTimeSet("t")}
+	if used {
+		opts.CheckRevocations = false
+		_ = TdxQuote(quote, opts)
+		opts.CheckRevocations = true
+	}
 	err := TdxQuote(quote, opts)
 	ok := err == nil
 	if nDist > 0 {
@@ -74,4 +83,22 @@ func H05f_RevocationWithoutCollateral() {
 	err := TdxQuote(quote, &Options{GetCollateral: false, CheckRevocations: true, Getter: w.getter, Now: symTimeSet("t")})
 	vp.Assert("revocation-without-collateral-fails", err != nil)
 	vp.Assert("and-fetches-nothing", len(w.getter.urls) == 0)
+}
+
+// H05g: the CRL conditions on an options value that was used before.
+func H05g_ReusedOptions_1dist_1rev() { h05u(1, 1, true) }
+
+// H05h: an options value that fetched collateral before and is then switched to "revocation
+// checks without collateral" fails like a fresh one, and fetches nothing.
+func H05h_ReusedOptions_RevocationWithoutCollateral() {
+	w := mkCollateralWorld(0, 1, 0, 1, 1, 0)
+	quote := mkQuote(w.pki, 0)
+	opts := &Options{GetCollateral: true, CheckRevocations: vp.Choose("firstCheckRevocations", 2) == 1, Getter: w.getter, Now: symTimeSet("t")}
+	err1 := TdxQuote(quote, opts)
+	vp.Reach("first-use-accepted", err1 == nil)
+	n := len(w.getter.urls)
+	opts.GetCollateral, opts.CheckRevocations = false, true
+	err := TdxQuote(quote, opts)
+	vp.Assert("revocation-without-collateral-fails-on-a-used-options-value", err != nil)
+	vp.Assert("and-fetches-nothing", len(w.getter.urls) == n)
 }
